@@ -633,6 +633,15 @@ def check_longopts_enum(ck, prog, got_nodes=None, rule="C19-OPTMAP", only=None):
     if tab is None or tab[0].get("k") != "init":
         raise AnalysisBroken("parse_real: long_opts table not found")
     n = 0
+    allnames, allenums = set(), set()
+    for x in tab[0]["e"]:
+        x = ex.strip(x)
+        if x is not None and x.get("k") == "init" and x.get("fields"):
+            ent = dict(zip(x["fields"], x["e"]))
+            allnames.add(ex.show(ex.strip(ent["name"])).strip('"'))
+            v = ex.strip(ent["val"])
+            if v is not None and v.get("k") == "enum":
+                allenums.add(v.get("n"))
     for x in tab[0]["e"]:
         x = ex.strip(x)
         if x is None or x.get("k") != "init" or not x.get("fields"):
@@ -647,8 +656,11 @@ def check_longopts_enum(ck, prog, got_nodes=None, rule="C19-OPTMAP", only=None):
             continue
         n += 1
         want = OPT_NAME_EXCEPT.get(en, en[4:].lower().replace("_", "-"))
-        ck.ob(rule, "--%s" % nm, nm == want, common.where(f, x),
-              "--%s -> %s" % (nm, en) if nm == want else
+        # a mismatch is decided only when it is a cross-mapping: the enumerator's own option, or the option's own enumerator,
+        # exists in the table as well (a new option whose enumerator is merely abbreviated is not an error)
+        cross = nm != want and (want in allnames or ("OPT_" + nm.upper().replace("-", "_")) in allenums)
+        ck.ob(rule, "--%s" % nm, not cross, common.where(f, x),
+              "--%s -> %s" % (nm, en) if not cross else
               "parse_real(): the long option --%s is dispatched as %s, i.e. as --%s: `xz --%s` silently does what --%s does "
               "(and not what --%s is documented to do)" % (nm, en, want, nm, want, nm), key="OPTMAP:--%s" % nm)
     if n < (2 if only else 30):
